@@ -15,3 +15,4 @@ import BU.Properties.C13_Gen
 #print axioms C13.order_independent
 #print axioms C13Gen.gen_digests_depend_on_skeleton
 #print axioms C13Gen.gen_sign_depends_on_skeleton
+#print axioms C13Gen.gen_sign_taproot_depends_on_skeleton
